@@ -34,14 +34,14 @@ func plansFor(prop string, thorough bool) ([]Plan, int) {
 			{Name: "gov", Const: "gov", Kinds: []string{"vote", "seen", "dkgres", "replay"}, Depth: d(4, 6),
 				SimNum: d(60, 1500), SimDepth: d(40, 60), MaxBeh: d(2500, 40000)},
 			{Name: "tie", Const: "tie", Kinds: []string{"vote", "dkgres"}, Depth: d(6, 8), MaxBeh: d(1500, 30000)},
-			{Name: "rot", Const: "rot", Kinds: []string{"vote", "seen", "badvote", "forged"}, Depth: d(5, 7), MaxBeh: d(0, 0)},
+			{Name: "rot", Const: "rot", Kinds: []string{"vote", "seen", "badvote", "forged"}, Depth: d(5, 7), MaxBeh: d(0, 0), Tags: true},
 		}, 1
 	case "C12":
 		return []Plan{
 			{Name: "val", Const: "val", Kinds: []string{"vote", "seen", "checkin"}, Depth: d(5, 7),
 				SimNum: d(60, 1500), SimDepth: d(40, 60), MaxBeh: d(2500, 40000)},
 			{Name: "val2-deep", Const: "val2", Kinds: []string{"vote", "seen", "checkin"}, Depth: d(8, 10), MaxBeh: d(0, 0)},
-			{Name: "val1-refused", Const: "val1", Kinds: []string{"seen", "checkin", "badcheckin", "vote", "badvote"}, Depth: d(6, 8), MaxBeh: d(0, 0)},
+			{Name: "val1-refused", Const: "val1", Kinds: []string{"seen", "checkin", "badcheckin", "vote", "badvote"}, Depth: d(6, 8), MaxBeh: d(0, 0), Tags: true},
 			{Name: "val6", Const: "val6", Kinds: []string{"seen", "checkin"}, Depth: d(4, 7), SimNum: d(150, 2000), SimDepth: d(40, 60), MaxBeh: d(1500, 30000)},
 		}, 1
 	case "C10":
